@@ -213,7 +213,19 @@ def run(ctx, rep):
         adt = F.adts.get(F.handle_paths.get("ArcUnion", ""))
         if adt:
             nz = [f for f in adt["variants"][0]["fields"] if not F.ts(f["ty"]).startswith("core::marker::PhantomData")]
-            if len(nz) == 1 and F.ts(nz[0]["ty"]).startswith("core::ptr::non_null::NonNull<"):
+            def _nonnull_word(ty, depth=0):
+                # a NonNull, or a private one-field newtype around one (`struct TaggedPtr(NonNull<()>)`): the width and the
+                # niche are then what rustc's own witnesses (W-ACCEPT c11_width) measure
+                t = F.ty(ty)
+                if t["k"] == "adt" and t["path"] == "core::ptr::non_null::NonNull":
+                    return True
+                a = F.adts.get(t.get("path", "")) if t["k"] == "adt" and t.get("local") else None
+                if a and depth < 3 and a["kind"] == "Struct":
+                    fs = [f for f in a["variants"][0]["fields"] if not F.ts(f["ty"]).startswith("core::marker::PhantomData")]
+                    return len(fs) == 1 and _nonnull_word(fs[0]["ty"], depth + 1)
+                return False
+
+            if len(nz) == 1 and _nonnull_word(nz[0]["ty"]):
                 rep.ok("R-REPR", "ArcUnion has one non-zero-sized field, a NonNull", cfg=tag)
             else:
                 rep.bad("R-REPR", "ArcUnion has one non-zero-sized field, a NonNull", "ArcUnion's fields are %s" % [F.ts(f["ty"]) for f in adt["variants"][0]["fields"]], None, tag)
